@@ -17,7 +17,8 @@ RULE = ('sequential: per configuration (fire_count x fire_period x window) all h
         'cond in {true,false,failing}) to the depth bound, de-duplicated by (min(count,fc+1), bucket(ts-last), in-window, stats of '
         'the real action); concurrent: N in {2,3} threads x fire_count in {1,2} x period in {0,1000ms}, every schedule with <= bound '
         'preemptions at line granularity in the limiter/handler code; non-trivial = the limiter rejected at least one hit that the '
-        'condition accepted / two threads were inside the check-record window together')
+        'condition accepted / two threads were inside the check-record window together'
+        ' ; updates facet: all histories (depth 4 quick / 6 thorough) over {hit, response repeating the tracepoint unchanged, +/- another tracepoint, changed arguments, removed, re-added} x fire_count{1,2} x action kinds, the fire count continues while every response repeats the tracepoint unchanged; 3 threads with hit times 0 / 1.5 / 1.6 periods')
 ASSUMPTIONS = ['thread switches at source-line granularity in action_context.py, LocationAction, TracepointExecutionStats, TriggerHandler.trace_call (opcode granularity in TracepointExecutionStats.fire in the thorough tier)',
                'window as tracepoint *arguments* uses unit-robust extremes (window_end=1, window_start=10^30): past/future whether read as ms or ns']
 
